@@ -103,7 +103,7 @@ func runWireMsg(c *core.Ctx) {
 				continue
 			}
 			if cp.ET == nil {
-				c.Note("R-WIRE-MSG: %s encodes the foreign wrapper %s; its Error() shape is not analysable (listed, not decided)", name, cp.Name)
+				checkForeignWrapperMsg(c, cp, msg, construct, pos)
 				continue
 			}
 			sh := shapes[cp.ET.Named]
@@ -266,6 +266,65 @@ var rErrnoTable = &Rule{
 				fmt.Sprintf("encodeErrno fills %s from %q but OpaqueErrno answers %q from it: the OS predicate changes in transit", k, wr[k], rd[k]))
 		}
 		c.Min("errno predicate members", len(ks), 5)
+		// the native/opaque decision: a native syscall.Errno is rebuilt only when the sender's whole platform
+		// string equals the one this build writes (errno tables differ per OS *and* per CPU, e.g. linux/mips)
+		dec := p.Func("errbase", "decodeErrno")
+		if dec == nil {
+			c.InternalErr("errbase.decodeErrno", "anchor not found")
+			return
+		}
+		var written string
+		sx.EachInstr(enc, func(in ssa.Instruction) {
+			if st, ok := in.(*ssa.Store); ok {
+				if fa, ok := st.Addr.(*ssa.FieldAddr); ok && sx.FieldOf(fa).Name() == "Arch" {
+					written, _ = sx.ConstString(st.Val)
+				}
+			}
+		})
+		nNative := 0
+		for _, ret := range sx.Returns(dec) {
+			var visit func(v ssa.Value, at *ssa.BasicBlock, d int)
+			visit = func(v ssa.Value, at *ssa.BasicBlock, d int) {
+				if d > 4 {
+					return
+				}
+				switch x := v.(type) {
+				case *ssa.Phi:
+					for i, e := range x.Edges {
+						visit(e, x.Block().Preds[i], d+1)
+					}
+				case *ssa.MakeInterface:
+					if !sx.IsNamed(x.X.Type(), "syscall", "Errno") {
+						return
+					}
+					nNative++
+					ok := false
+					for _, l := range dominatingLits(at) {
+						bin, isBin := l.V.(*ssa.BinOp)
+						if !isBin || !((bin.Op == token.NEQ && l.Neg) || (bin.Op == token.EQL && !l.Neg)) {
+							continue
+						}
+						for _, pair := range [][2]ssa.Value{{bin.X, bin.Y}, {bin.Y, bin.X}} {
+							ld, isLd := pair[0].(*ssa.UnOp)
+							if !isLd {
+								continue
+							}
+							fa, isFA := ld.X.(*ssa.FieldAddr)
+							if !isFA || sx.FieldOf(fa).Name() != "Arch" {
+								continue
+							}
+							if s, isC := sx.ConstString(pair[1]); isC && s == written && written != "" {
+								ok = true
+							}
+						}
+					}
+					c.Check(ok, "errbase.decodeErrno: native errno rebuilt", ret.Pos(), "only when the sender's Arch member equals this build's platform string ("+written+")",
+						"a native syscall.Errno is rebuilt from the sender's number without establishing that the sender's whole platform string (OS and CPU) equals this build's: errno numbering differs between platforms, the predicates (timeout, not-exist, …) recorded by the sender are discarded and recomputed from the wrong table")
+				}
+			}
+			visit(ret.Results[0], ret.Block(), 0)
+		}
+		c.Check(nNative >= 1 && written != "", "errbase.decodeErrno: native branch", dec.Pos(), "exists, and the encoder writes a constant platform string", "the decoder has no native branch or the encoder's Arch is not a constant")
 	},
 }
 
@@ -315,4 +374,141 @@ var rStackSlot = &Rule{
 			"the set of keys handled "+setStr(ka)+" differs from the declared stack type keys "+setStr(decl))
 		c.Min("stack-carrying type keys", len(decl), 3)
 	},
+}
+
+// ---------------------------------------------------------------------------
+// foreign wrappers (os.PathError, os.LinkError, os.SyscallError, ...)
+
+// textAtom is one operand of a string concatenation: a constant, a field of the receiver, or the text of the
+// error held in a field of the receiver.
+type textAtom struct {
+	Const   string
+	Field   string // receiver field read
+	ErrText string // receiver field whose Error() is called
+	Other   string
+}
+
+func (a textAtom) String() string {
+	switch {
+	case a.Field != "":
+		return "." + a.Field
+	case a.ErrText != "":
+		return "." + a.ErrText + ".Error()"
+	case a.Other != "":
+		return "?" + a.Other
+	}
+	return fmt.Sprintf("%q", a.Const)
+}
+
+// flattenConcat flattens a tree of string + into atoms relative to the receiver value recv.
+func flattenConcat(v ssa.Value, recv ssa.Value, out *[]textAtom, depth int) {
+	if depth > 12 {
+		*out = append(*out, textAtom{Other: "deep"})
+		return
+	}
+	switch x := v.(type) {
+	case *ssa.BinOp:
+		if x.Op == token.ADD {
+			flattenConcat(x.X, recv, out, depth+1)
+			flattenConcat(x.Y, recv, out, depth+1)
+			return
+		}
+	case *ssa.Const:
+		if s, ok := sx.ConstString(x); ok {
+			// merge adjacent constants
+			if n := len(*out); n > 0 && (*out)[n-1].Field == "" && (*out)[n-1].ErrText == "" && (*out)[n-1].Other == "" {
+				(*out)[n-1].Const += s
+				return
+			}
+			*out = append(*out, textAtom{Const: s})
+			return
+		}
+	case *ssa.UnOp:
+		if x.Op == token.MUL {
+			if fa, ok := x.X.(*ssa.FieldAddr); ok && fa.X == recv {
+				*out = append(*out, textAtom{Field: fieldNameOf(fa)})
+				return
+			}
+		}
+	case *ssa.Call:
+		if x.Call.IsInvoke() && x.Call.Method.Name() == "Error" {
+			if ld, ok := x.Call.Value.(*ssa.UnOp); ok && ld.Op == token.MUL {
+				if fa, ok := ld.X.(*ssa.FieldAddr); ok && fa.X == recv {
+					*out = append(*out, textAtom{ErrText: fieldNameOf(fa)})
+					return
+				}
+			}
+		}
+	}
+	*out = append(*out, textAtom{Other: fmt.Sprintf("%T", v)})
+}
+
+func fieldNameOf(fa *ssa.FieldAddr) string {
+	if ptr, ok := types.Unalias(fa.X.Type()).Underlying().(*types.Pointer); ok {
+		if st, ok := ptr.Elem().Underlying().(*types.Struct); ok && fa.Field < st.NumFields() {
+			return st.Field(fa.Field).Name()
+		}
+	}
+	return fmt.Sprintf("#%d", fa.Field)
+}
+
+func atomsString(as []textAtom) string {
+	var s []string
+	for _, a := range as {
+		s = append(s, a.String())
+	}
+	return strings.Join(s, " + ")
+}
+
+// checkForeignWrapperMsg: the key type is a wrapper defined outside the module. Its Error() method (standard
+// library / dependency source, loaded with the program) must have the shape  P + ": " + <causeField>.Error()
+// where P is a concatenation of constants and receiver fields, and the encoder's wire message must be exactly P
+// over the same fields in the same order: an unknowing receiver rebuilds the text as message + ": " + cause.
+func checkForeignWrapperMsg(c *core.Ctx, cp *codecPair, msg ssa.Value, construct string, pos token.Pos) {
+	p := c.P
+	key := cp.Key
+	named := sx.NamedOf(key)
+	if named == nil {
+		c.Undecided(construct, pos, "key type of a foreign wrapper is not a named type")
+		return
+	}
+	errFn := p.Method(named, "Error")
+	if errFn == nil || errFn.Blocks == nil || len(errFn.Params) == 0 {
+		c.Note("R-WIRE-MSG: %s encodes the foreign wrapper %s whose Error() has no source in the program (listed, not decided)", load.FnName(cp.Enc), cp.Name)
+		return
+	}
+	rets := sx.Returns(errFn)
+	if len(rets) != 1 {
+		c.Note("R-WIRE-MSG: Error() of the foreign wrapper %s is not a single concatenation (listed, not decided)", cp.Name)
+		return
+	}
+	var want []textAtom
+	flattenConcat(rets[0].Results[0], errFn.Params[0], &want, 0)
+	n := len(want)
+	okShape := n >= 2 && want[n-1].ErrText != "" && want[n-2].Const != "" && strings.HasSuffix(want[n-2].Const, ": ")
+	for _, a := range want {
+		if a.Other != "" {
+			okShape = false
+		}
+	}
+	if !okShape {
+		c.Note("R-WIRE-MSG: Error() of the foreign wrapper %s is not of the form P + \": \" + cause.Error() (%s) (listed, not decided)", cp.Name, atomsString(want))
+		return
+	}
+	prefix := append([]textAtom{}, want[:n-1]...)
+	prefix[len(prefix)-1].Const = strings.TrimSuffix(prefix[len(prefix)-1].Const, ": ")
+	if prefix[len(prefix)-1].Const == "" {
+		prefix = prefix[:len(prefix)-1]
+	}
+	// the encoder's receiver: the (asserted) error argument
+	var recv ssa.Value
+	sx.EachInstr(cp.Enc, func(in ssa.Instruction) {
+		if ta, ok := in.(*ssa.TypeAssert); ok && len(cp.Enc.Params) >= 2 && ta.X == ssa.Value(cp.Enc.Params[1]) && recv == nil {
+			recv = ta
+		}
+	})
+	var got []textAtom
+	flattenConcat(msg, recv, &got, 0)
+	c.Check(atomsString(got) == atomsString(prefix), construct, pos, "W3: message = "+atomsString(prefix)+" (the prefix part of "+load.FnName(errFn)+", read from its source)",
+		"the wire message ("+atomsString(got)+") is not the prefix part of the type's own Error() ("+atomsString(prefix)+"): a receiver that does not know the type shows a different text")
 }
